@@ -145,6 +145,15 @@ pub fn run_write(out: &mut Out, seed: u64, tier: &str) {
     out.sample("write H at (-100.0, 0.0078125, 9.9999995)");
 }
 
+/// Titles as they occur in the wild (the second line of an xyz file is free text; nothing in it says anything about the atoms)
+pub const TITLES: [&str; 40] = [
+    "Au dimethyl", "Me-Au-Me fragment, PBE0 geometry", "au", "AU", "geometry / au", "units=bohr", "coordinates in bohr", "run 12 on node bohr",
+    "angstrom", "Angstroms", "units: nm", "pm", "charge=1 mult=2", "charge = -1", "energy = -76.4026 Eh", "E -40.5183", "SCF done",
+    "frame 2", "step 17 time 8.5 fs", "i = 3, E = -12.5", "Lattice=\"10 0 0 0 10 0 0 0 10\" Properties=species:S:1:pos:R:3", "pbc=\"T T T\"",
+    "opt.xyz", "generated by optrs", "input.xyz -> output", "C6H6", "H2O", "He", "Fe Co Ni", "Dy Db Ds", "NaN", "inf", "nan nan nan", "1e308",
+    "0", "-1", "3 atoms", "scale 0.529177", "D3h symmetry", "# comment ! other ; chars , here",
+];
+
 fn num_spelling(v: f64, rng: &mut Rng) -> String {
     match rng.below(9) {
         0 => format!("{:e}", v),
@@ -195,7 +204,10 @@ pub fn run_read(out: &mut Out, seed: u64, tier: &str) {
         // a well-formed file with varied spellings
         let n = 1 + rng.below(6);
         // the title line is free text: sometimes empty, sometimes words and numbers, sometimes a perfectly formed atom line
-        let title: String = match rng.below(6) { 0 | 1 => "".into(), 2 => "a comment 1 2 3".into(), 3 => "O 0.0 0.0 0.0".into(), 4 => "H 1.5 -2.25 3 trailing".into(), _ => "12".into() };
+        // the title is free text: empty, words and numbers, a perfectly formed atom line — or what programs and people actually put
+        // there: element symbols as words, units, key=value pairs, an extended-xyz header, a file name, a frame counter
+        let title: String = match rng.below(9) { 0 | 1 => "".into(), 2 => "a comment 1 2 3".into(), 3 => "O 0.0 0.0 0.0".into(), 4 => "H 1.5 -2.25 3 trailing".into(), 5 => "12".into(),
+            _ => (*rng.pick(&TITLES)).to_string() };
         let mut lines: Vec<String> = vec![format!("{}", n), title];
         let mut expect: Vec<(usize, [String; 3])> = vec![];
         // one file in five is "table-like": coordinates that coincide with other quantities a line or file carries (the element's
